@@ -44,9 +44,19 @@
     `allow_error_never_none`); the order of the constraint loop and constraint adherence (`constraints_tried_in_order`,
     `returned_parameters_respect_a_constraint`).
 
-  NOT proved (named residue): that the numerical minimiser (scipy) FINDS the root that exists ("within the configured
-  retries": sampled only); existence for blocks other than the two universal ones; IEEE rounding inside numpy / sympy
-  (the bounds are about exact complex arithmetic on the observed blocks; 1e-9 slack in the harness).
+  * (round 5) the existence clause for a WHOLE RUN (`Model/C12Exact.lean`: `decompose_triangle` with the solver given
+    as a function of the two entries of the cell): a solver that answers every cell makes the run return for every
+    matrix (`exact_run_returns_circuit`), such a run is a run of the list-oracle model (`exact_run_is_a_run`), with the
+    closed forms every solved cell is nulled exactly (`universal_block_run_succeeds`), every unitary is reproduced within
+    the perturbation bound of the entries the threshold calls negligible (`universal_block_reproduces_every_unitary`)
+    and exactly when the threshold accepts exact zeros only (`universal_block_exact_decomposition`); which cells two of
+    the non-universal blocks can null (`bs_alone_nullable_iff`, `mzi_phase_first_nullable_iff`,
+    `non_universal_blocks_have_unsolvable_cells`).
+
+  NOT proved (named residue): that the numerical minimiser (scipy) FINDS the root that exists, in one cell or in every
+  cell of a run ("within the configured retries": sampled only); the nullable cells of the other blocks the code accepts,
+  and which MATRICES the non-universal blocks decompose; IEEE rounding inside numpy / sympy (the bounds are about exact
+  complex arithmetic on the observed blocks; 1e-9 slack in the harness, 1e-11 in the runs with the closed-form solver).
 -/
 import PercevalModel.Lemmas.C12
 import PercevalModel.Lemmas.C12Phase
